@@ -431,7 +431,8 @@ class UnusedVotesDistributor(MultistageDistributor):
             return rem_votes
         else:
             if not isinstance(n_seats, dict):
-                n_seats = collections.defaultdict(lambda: n_seats)
+                # a single seat count is valid for every constituency
+                n_seats = {constituency: n_seats for constituency in votes}
             return {
                 constituency: cls._use_votes(
                     con_votes,
